@@ -76,3 +76,40 @@ Theorem C11_dead_object_rejected : forall (s : state) (o : op),
   end.
 Proof. exact dead_object_rejected. Qed.
 Print Assumptions C11_dead_object_rejected.
+
+(* ---- the functions that create key objects, regenerated whole in trace mode (gen/Gen_Keys.v, coq/P11/KeyGenFacts.v) ---- *)
+From SoftHSM Require Import Gen_Keys KeyGenSpec KeyGenFacts.
+
+(* the five secret-key generators, regenerated whole (gen/Gen_Keys.v): the only handle they ever unregister and the only object
+   they ever destroy are the ones CreateObject just gave them - never what the caller's handle variable held on entry *)
+Theorem C11_generate_destroys_only_its_own_object :
+  (forall (e : generateAES.env),
+     (forall x, In (T_HMD, x) (snd (generateAES.app e)) -> x = generateAES.CreateObject_sets_phKey e) /\
+     (forall o, In (T_OBJD, o) (snd (generateAES.app e)) -> o = generateAES.handleManager_getObject e (generateAES.CreateObject_sets_phKey e))) /\
+  (forall (e : generateDES.env),
+     (forall x, In (T_HMD, x) (snd (generateDES.app e)) -> x = generateDES.CreateObject_sets_phKey e) /\
+     (forall o, In (T_OBJD, o) (snd (generateDES.app e)) -> o = generateDES.handleManager_getObject e (generateDES.CreateObject_sets_phKey e))) /\
+  (forall (e : generateDES2.env),
+     (forall x, In (T_HMD, x) (snd (generateDES2.app e)) -> x = generateDES2.CreateObject_sets_phKey e) /\
+     (forall o, In (T_OBJD, o) (snd (generateDES2.app e)) -> o = generateDES2.handleManager_getObject e (generateDES2.CreateObject_sets_phKey e))) /\
+  (forall (e : generateDES3.env),
+     (forall x, In (T_HMD, x) (snd (generateDES3.app e)) -> x = generateDES3.CreateObject_sets_phKey e) /\
+     (forall o, In (T_OBJD, o) (snd (generateDES3.app e)) -> o = generateDES3.handleManager_getObject e (generateDES3.CreateObject_sets_phKey e))) /\
+  (forall (e : generateGeneric.env),
+     (forall x, In (T_HMD, x) (snd (generateGeneric.app e)) -> x = generateGeneric.CreateObject_sets_phKey e) /\
+     (forall o, In (T_OBJD, o) (snd (generateGeneric.app e)) -> o = generateGeneric.handleManager_getObject e (generateGeneric.CreateObject_sets_phKey e))).
+Proof. exact generated_destroys_only_its_own. Qed.
+Print Assumptions C11_generate_destroys_only_its_own_object.
+
+(* C_UnwrapKey regenerated whole (gen/Gen_Keys.v): last two clauses - the only handle it ever unregisters and the only object it
+   ever destroys are the ones CreateObject just gave it *)
+Theorem C11_unwrap_destroys_only_its_own_object : forall (e : C_UnwrapKey.env),
+  let h := C_UnwrapKey.CreateObject_sets_hKey e in let g := C_UnwrapKey.handleManager_getObject e in
+  (fst (C_UnwrapKey.app e) <> 0 -> In (T_CREATE, OBJECT_OP_UNWRAP) (snd (C_UnwrapKey.app e)) -> h <> 0 -> exists pre, snd (C_UnwrapKey.app e) = cleanup OUT_hKey h g ++ pre) /\
+  (fst (C_UnwrapKey.app e) <> 0 -> last_out OUT_hKey (snd (C_UnwrapKey.app e)) = Some 0 \/ last_out OUT_hKey (snd (C_UnwrapKey.app e)) = None) /\
+  (fst (C_UnwrapKey.app e) = 0 -> (forall t v, In (t, v) (snd (C_UnwrapKey.app e)) -> t <> T_HMD /\ t <> T_OBJD /\ t <> T_ABORT) /\
+     In (T_CREATE, OBJECT_OP_UNWRAP) (snd (C_UnwrapKey.app e)) /\ In (T_TXS, g h) (snd (C_UnwrapKey.app e)) /\ In (T_COMMIT, g h) (snd (C_UnwrapKey.app e))) /\
+  (forall x, In (T_HMD, x) (snd (C_UnwrapKey.app e)) -> x = h) /\
+  (forall o, In (T_OBJD, o) (snd (C_UnwrapKey.app e)) -> o = g h).
+Proof. exact unwrap_failure_undoes_success_commits. Qed.
+Print Assumptions C11_unwrap_destroys_only_its_own_object.
